@@ -40,6 +40,7 @@ type fakeTransport struct {
 	in     chan srvMsg
 	log    []sentMsg
 	closed bool
+	readers int
 }
 
 func (t *fakeTransport) Close() error { t.closed = true; return nil }
@@ -60,8 +61,14 @@ func (t *fakeTransport) WriteMsg(msg messages.Common, requireToAck bool) error {
 	return nil
 }
 
+// ReadMsg: a connection's byte stream has one reader (the real mode/CancelableReader pair is not safe for two:
+// they would tear each other's frames apart), so a second goroutine entering ReadMsg on the same connection
+// while another is waiting in it is reported.
 func (t *fakeTransport) ReadMsg() (messages.Common, error) {
+	t.readers++
+	verifrt.Assert(t.readers == 1, "one-reader-at-a-time-on-a-connection")
 	m := <-t.in
+	t.readers--
 	return m.msg, m.err
 }
 
